@@ -51,7 +51,28 @@ var c19funcs = map[string]any{
 	"nat":  func(x float64) float64 { return x + 1 },
 	"nats": func(s string) string { return "<" + s + ">" },
 	"nat2": func(a, b int) int { return a*10 + b },
+	"natb": c19Natb,
 }
+
+// c19Natb upper-cases its argument in place: a native function owns the []byte it is given.
+func c19Natb(b []byte) string {
+	for i := range b {
+		if 'a' <= b[i] && b[i] <= 'z' {
+			b[i] -= 32
+		}
+	}
+	return string(b)
+}
+
+// programs for executions with native functions / with the process environment (Config.Environ nil)
+var c19NativeExecPrograms = []string{
+	`BEGIN { g = "hello there"; print natb(g), g, natb("constant text"), nats("k") }
+{ w = $1; print natb(w), w, $1, natb("per record " NR), nat(NR) }
+END { print natb("the end"), g }`,
+}
+var c19EnvExecProgram = `BEGIN { before = ENVIRON["C19X"]; print "before=" before; ENVIRON["C19X"] = "set" }
+{ ENVIRON["C19X"] = ENVIRON["C19X"] "," $1; print NR, ENVIRON["C19X"] }
+END { n = 0; for (k in ENVIRON) n++; print (n > 0), ENVIRON["C19X"], ("C19Y" in ENVIRON); ENVIRON["C19Y"] = NR }`
 
 type c19Engine struct{}
 
@@ -382,6 +403,9 @@ func (c19Engine) Gen(r *core.Rand, tier string, i int) any {
 	case 0:
 		sc.Src = c19GenSource(r, 0, true)
 		sc.Native = true
+		if r.Chance(1, 3) {
+			sc.Src = core.Pick(r, c19NativeExecPrograms)
+		}
 	case 1:
 		if len(c19td) > 0 {
 			sc.Src = core.Pick(r, c19td)
@@ -390,6 +414,9 @@ func (c19Engine) Gen(r *core.Rand, tier string, i int) any {
 		fallthrough
 	default:
 		sc.Src = core.Pick(r, c19ExecPrograms)
+		if r.Chance(1, 6) {
+			sc.Src = c19EnvExecProgram
+		}
 	}
 	if r.Chance(1, 3) {
 		sc.Rounds = r.Range(2, 3)
@@ -490,6 +517,15 @@ func c19ParseOnce(src string, native bool, order uint64) (res c19Parse, permuted
 	res.OK = true
 	res.Program = prog
 	res.Str = prog.String()
+	// the caller reuses its buffer for something else: the Program must not depend on it
+	for i := range srcBuf {
+		srcBuf[i] = 'Z'
+	}
+	if again := prog.String(); again != res.Str {
+		res.OK = false
+		res.Panic = "the parsed Program changed when the caller overwrote the source buffer after ParseProgram had returned: " + firstDiffLine(res.Str, again)
+		return
+	}
 	var buf bytes.Buffer
 	if err := prog.Disassemble(&buf); err != nil {
 		res.Disasm = "disassemble error: " + err.Error()
@@ -747,6 +783,7 @@ func c19FreshFuncs(calls *int64) map[string]any {
 		"nat":  func(x float64) float64 { hit(); return x + 1 },
 		"nats": func(s string) string { hit(); return "<" + s + ">" },
 		"nat2": func(a, b int) int { hit(); return a*10 + b },
+		"natb": func(b []byte) string { hit(); return c19Natb(b) },
 	}
 }
 
@@ -754,6 +791,9 @@ func c19Config(sc *c19Scn, in []byte, sink *core.SimSink, calls *int64) *interp.
 	cfg := &interp.Config{Stdin: bytes.NewReader(in), Output: sink, Error: io.Discard, Environ: []string{}}
 	if sc.Native {
 		cfg.Funcs = c19FreshFuncs(calls)
+	}
+	if sc.Src == c19EnvExecProgram {
+		cfg.Environ = nil // ENVIRON is filled from the process environment
 	}
 	return cfg
 }
